@@ -260,6 +260,8 @@ def plan(tier, seed):
     nrand = 5 if tier == "quick" else 16
     for i in range(nrand):
         shards.append({"kind": "random", "i": i, "n": 1200 if tier == "quick" else 14000})
+    if tier == "thorough":
+        shards.append({"kind": "e10"})
     return shards
 
 
@@ -277,6 +279,10 @@ def scripts_for(alpha, L, prefix):
 
 
 def run_shard(shard, rec):
+    if shard.get("kind") == "e10":
+        from vlib import e10
+        e10.run_e10("C17", rec)
+        return
     env = setup()
     if shard["kind"] == "recv":
         first = 0 if all(i == 0 for i in shard["prefix"]) else 1
